@@ -12,6 +12,17 @@ thread_local! {
     static ARMED: RefCell<Option<(&'static str, usize)>> = const { RefCell::new(None) };
     static TRACE: RefCell<Vec<&'static str>> = const { RefCell::new(Vec::new()) };
     static TRACING: RefCell<bool> = const { RefCell::new(false) };
+    static WALK_BUDGET: RefCell<Option<usize>> = const { RefCell::new(None) };
+}
+
+/// Hook H4: cap the number of facet-walk steps of point location for this thread (`None` = the
+/// library's own limit).  Lets the harness reach the exhaustive-scan fallback on small inputs.
+pub fn set_walk_budget(budget: Option<usize>) {
+    WALK_BUDGET.with(|b| *b.borrow_mut() = budget);
+}
+
+pub fn walk_budget() -> Option<usize> {
+    WALK_BUDGET.with(|b| *b.borrow())
 }
 
 /// Arm failpoint `name`: its `ordinal`-th hit (0-based) from now on reports failure once.
